@@ -465,10 +465,23 @@ def rule_T(ctx):
             ap = fi
         if q.startswith(TRACK + '.') and fi.name.endswith('__evaluate'):
             ev = fi
-    sites = [n for n in ast.walk(ap.node) if isinstance(n, ast.Assign) and unparse(n.targets[0]) == 'out_af']
-    bad = [unparse(n.value) for n in sites if not (isinstance(n.value, ast.BinOp) and isinstance(n.value.left, ast.Constant) and n.value.left.value == '#')]
-    ctx.check(len(sites) >= 4 and not bad, 'C01.T', ap, "every temporary name the evaluator invents is '#' + counter",
-              witness={'sites': len(sites), 'other names': bad}, node=ap.node, key='temp-names')
+    # every feature the non-assignment arms create or fill is named '#' + something: read the name off the calls on each path
+    wa = Walker(ap, loop_mode='once')
+    named = []
+    for o in wa.run(body_nodocstring(ap), State()):
+        for e in o.state.events:
+            if e.kind != 'call' or not e.args or any(repr(c).replace('"', "'") == "operator == '='" for c, _ in e.conds):
+                continue
+            if e.name == 'createAnalyticalFeature':
+                named.append((e, e.args[0]))
+            elif e.name == 'operate' and 'NAMES_DICT_VOID' in vr(e.args[0]) and len(e.args) >= 3:
+                named.append((e, e.args[-1]))
+    def hashed(v):
+        t = vr(v).replace('"', "'")
+        return t.startswith("('#' Add ") or t.startswith("'#")
+    bad = sorted(set('%s(... %s)' % (e.name, vr(v)) for e, v in named if not hashed(v)))
+    ctx.check(len(named) >= 4 and not bad, 'C01.T', ap, "every feature the evaluator creates for an intermediate result is named '#' + something",
+              witness={'creating calls on the non-assignment paths': len(named), 'names not starting with #': bad}, node=ap.node, key='temp-names')
     ctx.recognise("'#output = ' + expression" in unparse(ev.node), 'C01.T', ev, "the result of an expression without '=' is parked under '#output'", node=ev.node)
 
 
